@@ -165,8 +165,13 @@ func (b *bgen) bschema(from string, depth int, refP float64) M {
 			s[b.pick([]string{"anyOf", "oneOf"})] = []any{b.leafOrRef(from, refP), b.leafOrRef(from, refP)}
 			b.hit("holder:anyOf-oneOf")
 		case 2:
-			s["not"] = b.leafOrRef(from, refP)
-			b.hit("holder:not")
+			// `not` is a holder only in W+: when a complex schema ends up under it (Expand) and has to be named, Flatten
+			// fails with "unhandled parent schema rewrite" (rewriteParentRef has no case for a schema holder; pinned by
+			// C04.rewriteSchemaToRef_under_not) — an out-of-domain observation, the holders W enumerates do not include it
+			if b.plus {
+				s["not"] = b.leafOrRef(from, refP)
+				b.hit("holder:not")
+			}
 		}
 	case "map":
 		s["type"] = "object"
